@@ -586,6 +586,10 @@ class Gen(object):
                     srcs.append(Src((name,), x.lo, x.hi))
                 elif vk < 0.4 and ints:
                     x = r.choice(ints)
+                    vnames = set(g.name for g in fields if g.kind == "virtual")
+                    over_virtual = [y for y in ints if y.path[0] in vnames]
+                    if over_virtual and r.random() < 0.4:
+                        x = r.choice(over_virtual)  # `v + c` over another virtual field (writable only if that one is)
                     c = r.randint(1, 20)
                     form = r.choice(["+", "-", "c+", "c-"])
                     if form == "+":
@@ -596,8 +600,25 @@ class Gen(object):
                         e, lo, hi = op("+", num(c), ref(*x.path)), x.lo + c, x.hi + c
                     else:
                         e, lo, hi = op("-", num(c), ref(*x.path)), c - x.hi, c - x.lo
+                    if r.random() < 0.35:
+                        # a second level: (x - 3) + 10, 100 - (x - 20), 10 + (c - x): still invertible
+                        c2 = r.randint(1, 120)
+                        form2 = r.choice(["+", "-", "c+", "c-"])
+                        if form2 == "+":
+                            e, lo, hi = op("+", e, num(c2)), lo + c2, hi + c2
+                        elif form2 == "-":
+                            e, lo, hi = op("-", e, num(c2)), lo - c2, hi - c2
+                        elif form2 == "c+":
+                            e, lo, hi = op("+", num(c2), e), lo + c2, hi + c2
+                        else:
+                            e, lo, hi = op("-", num(c2), e), c2 - hi, c2 - lo
                     f = Field(name, "virtual", expr=e)
                     srcs.append(Src((name,), lo, hi))
+                    tgt = [g for g in fields if g.name == x.path[0] and g.kind == "virtual"]
+                    if tgt and r.random() < 0.5:
+                        # declared BEFORE the virtual field it is computed from (declaration order is free)
+                        fields.insert(fields.index(tgt[0]), f)
+                        continue
                 elif vk < 0.55:
                     self.wide_now = self.wide_module and r.random() < 0.5
                     f = Field(name, "virtual", expr=self.bool_expr(srcs), cond=cond)
@@ -692,6 +713,13 @@ class Gen(object):
         if not any(f.kind != "virtual" for f in fields) and r.random() < 0.8:
             fields.insert(0, Field(self.fname(used), "phys", num(0), num(1), Type("uint")))
             srcs.append(Src((fields[0].name,), 0, 255))
+        if r.random() < 0.3:
+            # declaration order is free in Emboss: move some virtual fields ahead of what they mention (physical fields
+            # keep their relative order, which `$next` depends on)
+            virt = [f for f in fields if f.kind == "virtual"]
+            for f in r.sample(virt, min(len(virt), r.randint(1, 3))):
+                fields.remove(f)
+                fields.insert(0 if r.random() < 0.5 else r.randrange(len(fields) + 1), f)
         s.fields = fields
         if self.p["allow_requires"] and srcs and r.random() < 0.12:
             s.requires = self.bool_expr(srcs)
